@@ -115,8 +115,14 @@ def run(r, all_functions=False):
     rep.require(len(defs) >= 6, f"C20-DEF: {len(defs)} mutable defaults inventoried, floor is 6")
     # ---- module-level and class-level state
     gl = [(q, root, e, w) for q in E.funcs for root, e, w in E.direct[q] if root[0] == "glob"]
+    block_kept = any(root[1] == "pyrepseq.nn._cal_params" for _, root, _, _ in gl)
     for q, root, e, w in gl:
         ok = root[1] == "pyrepseq.nn._cal_params" and baseline_owners(r, q) == {"pyrepseq.nn._to_triplets"}
+        if not ok and not block_kept and baseline_owners(r, q) == {"pyrepseq.nn._to_triplets"}:
+            # the audited block itself was replaced by another module-level object, written by the same function: its write / read discipline
+            # is the parameter-block rule's business (which cannot find its anchor), not a new piece of state
+            rep.require(False, f"{q}: the kdtree parameter block was replaced by the module-level object {root[1].rsplit('.', 1)[1]}; its discipline cannot be decided [C20-GLB]")
+            continue
         rep.ob("C20-GLB", q, ok, "the only module-level store is the audited kdtree parameter block", where_of(r.P, r.P.functions[q], e.node), expected="no store to module-level state",
                found=w, key=f"global store {root[1]}")
     rep.require(len(gl) >= 1, "C20-GLB: the kdtree parameter-block store was not found (anchor vanished)")
